@@ -263,6 +263,36 @@ def yaml_rows():
 
 # ---------------------------------------------------------------------------
 
+YT_VALS = {"map": {"C_prefix": "X_"}, "emptymap": {}, "list": ["a"], "emptylist": [], "str": "text", "emptystr": "", "int0": 0,
+           "int7": 7, "float0": 0.0, "true": True, "false": False, "null": None}
+YT_KEYS = ["format", "options", "attrs", "fattrs", "splicer", "fstatements", "declarations", "cxx_template", "fortran_generic",
+           "default_arg_suffix", "copyright", "typemap", "library", "language", "cxx_header", "namespace",
+           # keys whose type the documentation leaves open: judged on "never an internal failure" only
+           "doxygen", "cpp_if", "return_this", "patterns", "setup", "splicer_code"]
+
+
+def ytype_rows():
+    """Every key of the input file x the level it is written at x every kind of YAML value
+    (specs/Trace_Invalid.tla KeyType / ReadAt)."""
+    f = {"decl": "void f(int a = 1)"}
+
+    def lib(**kw):
+        d = {"library": "t", "cxx_header": "t.hpp", "declarations": [dict(f)]}
+        d.update(kw)
+        return d
+    levels = {
+        "library": lambda k, v: lib(**{k: v}),
+        "class": lambda k, v: lib(declarations=[dict({"decl": "class C", "declarations": [{"decl": "void m()"}]}, **{k: v})]),
+        "namespace": lambda k, v: lib(declarations=[dict({"decl": "namespace n", "declarations": [dict(f)]}, **{k: v})]),
+        "function": lambda k, v: lib(declarations=[dict({"decl": "template<typename T> void g(T a, double b = 1.0)",
+                                                         "cxx_template": [{"instantiation": "<int>"}]}, **{k: v})]),
+    }
+    for k in YT_KEYS:
+        for lv, mk in levels.items():
+            for vk, v in YT_VALS.items():
+                yield k, lv, vk, mk(k, json.loads(json.dumps(v)))
+
+
 def decl_rows():
     """Declarations whose validity depends on context that must not leak between declarations."""
     return [
@@ -284,6 +314,8 @@ def finding_key(kind, t, detail):
         return "attr:%s:%s:%s" % (t["target"], names, t["exc"] or d[:40])
     if kind == "yaml":
         return "yaml:" + t["case"]
+    if kind == "ytype":
+        return "ytype:%s:%s:%s" % (t["key"], t["level"], t["vk"])
     return "%s:%s:%s" % (kind, d[:40], t["exc"] or "")
 
 
@@ -362,6 +394,10 @@ def run(tier):
         for case, text in decl_rows():
             o, msg, exc = W.parse(text)
             traces.append({"kind": "yaml", "case": case, "outcome": o, "msg": msg, "exc": exc, "text": text})
+        for k, lv, vk, dct in ytype_rows():
+            o, msg, exc = W.full(dct)
+            traces.append({"kind": "ytype", "key": k, "level": lv, "vk": vk, "outcome": o, "msg": msg, "exc": exc,
+                           "text": "%s: %s at %s level" % (k, json.dumps(YT_VALS[vk]), lv)})
         n_yaml = len(traces) - n_mut - n_raw - n_attr
         # --- history independence: a sample of the inputs again, in another order
         for t in traces:
@@ -381,11 +417,14 @@ def run(tier):
                     {"kind": "raw", "toks": ["int", "x"], "outcome": "internal", "msg": "boom"},
                     {"kind": "attr", "target": "arg", "shape": SHAPES[0], "attrs": [{"n": "intent", "bare": False, "v": "out"}],
                      "outcome": "accept", "msg": ""},
-                    {"kind": "yaml", "case": "language-fortran", "outcome": "accept", "msg": ""}]
+                    {"kind": "yaml", "case": "language-fortran", "outcome": "accept", "msg": ""},
+                    {"kind": "ytype", "key": "options", "level": "class", "vk": "false", "outcome": "accept", "msg": ""},
+                    {"kind": "ytype", "key": "setup", "level": "library", "vk": "int7", "outcome": "internal", "msg": "boom"}]
         keys = {"mut": ("kind", "D", "mut", "toks", "outcome", "msg", "sentence", "again"),
                 "raw": ("kind", "toks", "outcome", "msg", "again"),
                 "attr": ("kind", "target", "shape", "attrs", "outcome", "msg", "again"),
-                "yaml": ("kind", "case", "outcome", "msg", "again")}
+                "yaml": ("kind", "case", "outcome", "msg", "again"),
+                "ytype": ("kind", "key", "level", "vk", "outcome", "msg", "again")}
         for k in controls:
             k["again"] = k["outcome"]
         controls.append({"kind": "raw", "toks": ["int", "x"], "outcome": "accept", "msg": "", "again": "reject"})
